@@ -917,7 +917,11 @@ class OmniParser(PVLParser):
         all whitespace characters that begin the next line will
         be removed.
         """
-        nodash = re.sub(r"-[\n\r\f]\s*", "", s)
+        # Only this grammar's white space: \s would also swallow characters
+        # such as U+001C-U+001F, U+0085 or U+00A0, which are not white space
+        # in any PVL dialect (and are not even allowed in some).
+        ws = re.escape("".join(self.grammar.whitespace))
+        nodash = re.sub(fr"-[\n\r\f][{ws}]*", "", s)
         self.doc = nodash
 
         return super().parse(nodash)
